@@ -7,32 +7,22 @@ import (
 	"strings"
 	"time"
 
+	"github.com/rs/zerolog"
+
 	"github.com/aergoio/aergo/v2/consensus/impl/dpos"
 	"github.com/aergoio/aergo/v2/consensus/impl/dpos/bp"
 	"github.com/aergoio/aergo/v2/consensus/impl/dpos/slot"
 	"github.com/aergoio/aergo/v2/types"
+	"github.com/aergoio/aergo/v2/zz_verif/c09lib"
 	"github.com/aergoio/aergo/v2/zz_verif/vh"
-	"github.com/libp2p/go-libp2p/core/crypto"
 )
 
-type producer struct {
-	priv crypto.PrivKey
-	id   string // base58 peer id
-}
+type producer = c09lib.Producer
 
-func newProducer(r *vh.Rng) producer {
-	priv, pub, err := crypto.GenerateSecp256k1Key(bytes.NewReader(r.Bytes(64)))
-	if err != nil {
-		panic(err)
-	}
-	pid, err := types.IDFromPublicKey(pub)
-	if err != nil {
-		panic(err)
-	}
-	return producer{priv, types.IDB58Encode(pid)}
-}
+func newProducer(r *vh.Rng) producer { return c09lib.NewProducer(r) }
 
 func main() {
+	zerolog.SetGlobalLevel(zerolog.Disabled)
 	run := vh.Start("c09", "slot: every ms within ±3 slots of sampled round boundaries × producer counts × intervals, plus random int64 instants; "+
 		"valid: signed blocks by members/non-members at slot-boundary timestamps; hdrmut: every header field mutated. "+
 		"non-trivial = instant after the epoch (non-negative slot index); distinct by (op, answer)")
@@ -159,7 +149,7 @@ func main() {
 		perm := rng.Intn(len(pool))
 		var ids []string
 		for j := 0; j < n; j++ {
-			ids = append(ids, pool[(perm+j)%len(pool)].id)
+			ids = append(ids, pool[(perm+j)%len(pool)].ID)
 		}
 		c, err := bp.VerifNewCluster(ids)
 		if err != nil {
@@ -183,22 +173,22 @@ func main() {
 			signer = pool[(perm+n+rng.Intn(len(pool)-n+1))%len(pool)]
 		}
 		blk := &types.Block{Header: &types.BlockHeader{ChainID: []byte("c"), BlockNo: uint64(round), Timestamp: ts}, Body: &types.BlockBody{}}
-		if err := blk.Sign(signer.priv); err != nil {
+		if err := blk.Sign(signer.Priv); err != nil {
 			panic(err)
 		}
 		ok := d.IsBlockValid(blk, nil) == nil
-		run.Op(fmt.Sprintf("valid %d %d %s %s", iv, ts, signer.id, strings.Join(ids, " ")), fmt.Sprint(ok), true)
+		run.Op(fmt.Sprintf("valid %d %d %s %s", iv, ts, signer.ID, strings.Join(ids, " ")), fmt.Sprint(ok), true)
 		run.Count(fmt.Sprintf("valid=%v", ok))
 		// oracle: accepted => member and its list position owns the slot
 		pos := -1
 		for j, id := range ids {
-			if id == signer.id {
+			if id == signer.ID {
 				pos = j
 			}
 		}
 		if ok != (pos >= 0 && pos == own) {
 			run.Fail("IsBlockValid verdict differs from 'member whose index owns the slot'",
-				map[string]interface{}{"intervalMs": iv, "ts": ts, "signer": signer.id, "ids": ids, "accepted": ok})
+				map[string]interface{}{"intervalMs": iv, "ts": ts, "signer": signer.ID, "ids": ids, "accepted": ok})
 		}
 		// oracle: no second producer is also accepted for this instant
 		if ok {
@@ -207,7 +197,7 @@ func main() {
 					continue
 				}
 				b2 := &types.Block{Header: &types.BlockHeader{ChainID: []byte("c"), BlockNo: uint64(round), Timestamp: ts}, Body: &types.BlockBody{}}
-				b2.Sign(pool[(perm+j)%len(pool)].priv)
+				b2.Sign(pool[(perm+j)%len(pool)].Priv)
 				if d.IsBlockValid(b2, nil) == nil {
 					run.Fail("two producers entitled to the same instant", map[string]interface{}{"intervalMs": iv, "ts": ts, "ids": ids, "a": pos, "b": j})
 				}
@@ -227,7 +217,7 @@ func main() {
 		var members []producer
 		for j := 0; j < n; j++ {
 			members = append(members, pool[(cur+j)%len(pool)])
-			ids = append(ids, members[j].id)
+			ids = append(ids, members[j].ID)
 		}
 		c, err := bp.VerifNewCluster(ids)
 		if err != nil {
@@ -247,7 +237,7 @@ func main() {
 				cand := pool[rng.Intn(len(pool))]
 				dup := false
 				for _, m := range next {
-					dup = dup || m.id == cand.id
+					dup = dup || m.ID == cand.ID
 				}
 				if !dup {
 					next = append(next, cand)
@@ -259,7 +249,7 @@ func main() {
 			members = next
 			ids = ids[:0]
 			for _, m := range members {
-				ids = append(ids, m.id)
+				ids = append(ids, m.ID)
 			}
 			if err := c.Update(ids); err != nil {
 				panic(err)
@@ -284,7 +274,7 @@ func main() {
 					kind = "previous-set"
 					// pick the slot its OLD index owned
 					for pi, pm := range prev {
-						if pm.id == signer.id {
+						if pm.ID == signer.ID {
 							ms = (roundNo*int64(n)+int64(pi%n))*iv + 1
 							ts = ms * 1000000
 							sl = slot.NewFromUnixNano(ts)
@@ -296,25 +286,30 @@ func main() {
 					kind = "any"
 				}
 				blk := &types.Block{Header: &types.BlockHeader{ChainID: []byte("c"), BlockNo: uint64(roundNo), Timestamp: ts}, Body: &types.BlockBody{}}
-				if err := blk.Sign(signer.priv); err != nil {
+				if err := blk.Sign(signer.Priv); err != nil {
 					panic(err)
 				}
 				ok := d.IsBlockValid(blk, nil) == nil
-				run.Op(fmt.Sprintf("valid %d %d %s %s", iv, ts, signer.id, strings.Join(ids, " ")), fmt.Sprint(ok), true)
+				run.Op(fmt.Sprintf("valid %d %d %s %s", iv, ts, signer.ID, strings.Join(ids, " ")), fmt.Sprint(ok), true)
 				pos := -1
 				for j, id := range ids {
-					if id == signer.id {
+					if id == signer.ID {
 						pos = j
 					}
 				}
 				run.Count(fmt.Sprintf("after-election signer=%s member=%v valid=%v", kind, pos >= 0, ok))
 				if ok != (pos >= 0 && pos == own) {
 					run.Fail("after a producer-set change IsBlockValid differs from 'current member whose index owns the slot'",
-						map[string]interface{}{"intervalMs": iv, "ts": ts, "signer": signer.id, "currentIds": append([]string{}, ids...), "accepted": ok, "signerKind": kind})
+						map[string]interface{}{"intervalMs": iv, "ts": ts, "signer": signer.ID, "currentIds": append([]string{}, ids...), "accepted": ok, "signerKind": kind})
 				}
 			}
 		}
 	}
+
+	// the DPoS object's own entry points (VerifySign, VerifyTimestamp, IsBlockValid incl. its error path): checks.go
+	consensusChecks(run, pool)
+	// which producer list is current: the real Status.Update / bp.Snapshots over long chains: snap.go
+	snapSessions(run, pool)
 
 	// header mutations: hash must change, signature must stop verifying
 	fields := []string{"ChainID", "PrevBlockHash", "BlockNo", "Timestamp", "BlocksRootHash", "TxsRootHash", "ReceiptsRootHash",
@@ -329,7 +324,7 @@ func main() {
 		}
 		for _, f := range fields {
 			b := mk()
-			if err := b.Sign(signer.priv); err != nil {
+			if err := b.Sign(signer.Priv); err != nil {
 				panic(err)
 			}
 			okBefore, _ := b.VerifySign()
